@@ -228,9 +228,26 @@ def _around(a, decimals=0, out=None):
 
 
 def sort_network_median(vals):
-    """median of symbolic values as If-terms (odd or even length), no forks."""
+    """median of symbolic values, no forks.  Odd length: a fresh variable m characterised by
+    m in {w_j}, #{w_j <= m} >= k+1, #{w_j >= m} >= k+1 (memoised on the multiset of terms, so the same window gives the
+    same variable); even length: If-term sorting network."""
     xs = [core.lift(v) for v in vals]
     n = len(xs)
+    if n == 1:
+        return SymReal(xs[0])
+    if n % 2 == 1 and core.CTX is not None:
+        c = core.CTX
+        key = tuple(sorted(x.get_id() for x in xs))
+        memo = c.memo.setdefault("median", {})
+        if key not in memo:
+            m = c.newvar("med")
+            k = n // 2
+            one, zero = z3.RealVal(1), z3.RealVal(0)
+            le = z3.Sum([z3.If(x <= m, one, zero) for x in xs])
+            ge = z3.Sum([z3.If(x >= m, one, zero) for x in xs])
+            c.add_def(core.Def(m, "median", z3.And(z3.Or(*[m == x for x in xs]), le >= k + 1, ge >= k + 1)))
+            memo[key] = (SymReal(m), xs)
+        return memo[key][0]
     # odd-even transposition sort with If-terms
     for rnd in range(n):
         for i in range(rnd % 2, n - 1, 2):
